@@ -7,11 +7,11 @@
 (* lation, broadcast) and C12 (disconnection is final, events alternate,   *)
 (* first reason reported).                                                 *)
 (***************************************************************************)
-EXTENDS Renet, Json
+EXTENDS RenetSrv, Json
 
 CONSTANTS Ids,         \* client ids (a set of small integers)
           MaxSteps,    \* length of the explored call sequences
-          Calls,       \* which families of calls are enabled: subset of {"table", "status", "traffic", "bcast", "hostile"}
+          Calls,       \* which families of calls are enabled: subset of {"table", "status", "traffic", "bcast", "hostile", "local"}
           Msgs,        \* sequence of [ch, cid, len]: payloads used by send / broadcast, consumed in order
           HealDt, HealRounds, Bound,
           PropsOn, ExportAll, Export, Manual
@@ -23,8 +23,6 @@ IdSeq == SortedSeq(Ids)
 Cfg == [conns |-> IdSeq, sc |-> ChSC, cs |-> ChCS, budget |-> Budget, seqbase |-> SeqBase, midbase |-> MidBase,
         props |-> PropsOn, manual |-> Manual]
 
-GoneProj == [status |-> "Gone", reason |-> "None", rch |-> 0 - 1,
-             avail |-> [i \in 1..Len(ChSC) |-> 0], rmem |-> [i \in 1..Len(ChCS) |-> 0], unacked |-> [i \in 1..Len(ChSC) |-> <<>>]]
 GoneEv(name, id) == [ev |-> name, conn |-> id, side |-> "S", st0 |-> GoneProj, st1 |-> GoneProj, panic |-> FALSE]
 
 Init == /\ W = [i \in Ids |-> IF Manual THEN [NewWorld EXCEPT !.ep["C"].status = "Connecting"] ELSE NewWorld]
@@ -69,6 +67,16 @@ ARemove(id) ==
           /\ obs' = ObsFold(obs, <<ev>>, 1)
           /\ UNCHANGED W
     /\ Rec([a |-> "api", conn |-> id, side |-> "S", call |-> "remove_connection"]) /\ Tick
+
+\* local clients (server.rs:272-309)
+ALocal(id, call) ==
+    /\ Can /\ "local" \in Calls
+    /\ LET r == SrvLocal(call, W[id], has[id], evq, id) IN
+       /\ W' = [W EXCEPT ![id] = r.w]
+       /\ has' = [has EXCEPT ![id] = r.present]
+       /\ evq' = r.evq
+       /\ obs' = ObsFold(obs, <<r.ev>>, 1)
+    /\ Rec([a |-> "api", conn |-> id, side |-> "S", call |-> call]) /\ Tick
 
 \* calls that reach the server side connection object
 ASrvCall(id, call) ==
@@ -193,6 +201,7 @@ ARound == /\ ctl.healed /\ ctl.rounds < HealRounds
 Next == \/ \E id \in Ids : AAdd(id) \/ ARemove(id)
         \/ \E id \in Ids : \E call \in {"disconnect", "disconnect_due_to_transport", "set_connected", "set_connecting"} : ASrvCall(id, call)
         \/ \E id \in Ids : \E call \in {"disconnect", "disconnect_due_to_transport", "set_connected"} : ACliCall(id, call)
+        \/ \E id \in Ids : \E call \in LocalCalls : ALocal(id, call)
         \/ AGetEvent
         \/ \E id \in Ids : \E side \in {"S", "C"} : ASend(id, side) \/ AFlush(id, side)
         \/ \E except \in Ids \cup {0} : ABcast(except)
